@@ -37,6 +37,9 @@ type svcProgram struct {
 	// invocations (with the author providing the blob whenever it is solicited and missing) the lookup entry runs
 	// through its whole life cycle: [] -> [x] -> [x,y] -> [x,y,z] -> (after D slots) [z,t] ...
 	cycle []byte
+	// creates: on every accumulation the service creates a new (code-less) service account; histories then hold
+	// accounts that were born on chain, with identifiers the node derives itself
+	creates bool
 	meta   []byte // encoded (metadata, code)
 	codeH  types.OpaqueHash
 }
@@ -104,6 +107,16 @@ func buildSvcProgram(p *svcProgram, all []types.ServiceID) []byte {
 		a.LoadImm64(7, hp)
 		a.LoadImm64(8, uint64(len(p.cycle)))
 		a.Ecalli(23) // solicit
+	}
+	if p.creates {
+		ch := h256(u32le(uint32(p.id)), []byte("code of a service born on chain"))
+		a.LoadImm64(7, d.Put(ch[:]))
+		a.LoadImm64(8, 60) // code length
+		a.LoadImm64(9, 5)  // minimum accumulate gas
+		a.LoadImm64(10, 5) // minimum memo gas
+		a.LoadImm64(11, 0) // gratis offset
+		a.LoadImm64(12, 0) // requested identifier (registrar only)
+		a.Ecalli(18)       // new
 	}
 	if p.yield {
 		y := h256(u32le(uint32(p.id)), []byte("yield"))
